@@ -1,6 +1,6 @@
 SPECIFICATION Spec
 CONSTANT Cfg <- MCCfgN3T3
-CONSTANT Depth = 3
+CONSTANT Depth = 4
 CONSTRAINT Bounded
 INVARIANT Protocol
 INVARIANT RewardOnlyAtSolved
